@@ -1071,6 +1071,8 @@ func prepareCase(r *core.Run, idx int, c *gcase, configs []buildConfig) *prepare
 	p.root = root
 	p.srcs = c.sources()
 	core.WriteTree(root, p.srcs)
+	// every .js file below is an ES module (spares Node the CommonJS-first syntax detection)
+	os.WriteFile(filepath.Join(root, "package.json"), []byte("{\"type\":\"module\"}\n"), 0644)
 	p.seqs = sequences(len(c.Entries))
 	var entryFiles []string
 	for _, e := range c.Entries {
@@ -1234,30 +1236,47 @@ func evaluateCase(r *core.Run, p *prepared, byID map[string]*nodeResult) (out ca
 
 // ---------------------------------------------------------------------------
 
-func genConfig(r *core.Run) (string, string, error) {
-	name := "LinkGen.quick.cfg"
-	if r.Thorough() {
-		name = "LinkGen.thorough.cfg"
-	}
-	b, err := os.ReadFile(filepath.Join(r.Verif, "spec", "cfg", name))
+type genCfg struct{ name, text string }
+
+// genConfigs derives the generator configurations from spec/cfg/LinkGen.quick.cfg: the family is cut into
+// slices by shape (k entry points, n modules), one TLC run each, because TLC computes initial states (one
+// per graph) with a single thread.  quick: a seeded slice of two variants per incidence pattern;
+// thorough: every variant of every pattern up to k=3, n=3 and k=2, n=4, and a seeded slice for k=3, n=4.
+func genConfigs(r *core.Run) ([]genCfg, error) {
+	b, err := os.ReadFile(filepath.Join(r.Verif, "spec", "cfg", "LinkGen.quick.cfg"))
 	if err != nil {
-		return "", "", err
+		return nil, err
 	}
-	text := string(b)
+	tmpl := string(b)
+	if !strings.Contains(tmpl, "Shapes <- ShapesQuick") || !strings.Contains(tmpl, "Pick = 1") {
+		return nil, fmt.Errorf("unexpected shape of LinkGen.quick.cfg")
+	}
+	pick := int(r.Seed % 1000)
+	if pick <= 0 {
+		pick = 1
+	}
+	mk := func(shapes string, pick int) genCfg {
+		t := strings.Replace(tmpl, "Shapes <- ShapesQuick", "Shapes <- "+shapes, 1)
+		t = strings.Replace(t, "Pick = 1", fmt.Sprintf("Pick = %d", pick), 1)
+		return genCfg{"LinkGen." + shapes + ".cfg", t}
+	}
 	if !r.Thorough() {
-		// the quick tier checks a seeded slice of the family: two variants per incidence pattern
-		pick := int(r.Seed % 1000)
-		if pick <= 0 {
-			pick = 1
-		}
-		text = strings.Replace(text, "Pick = 1", fmt.Sprintf("Pick = %d", pick), 1)
+		return []genCfg{mk("ShapesQuickA", pick), mk("ShapesQuickB", pick)}, nil
 	}
-	return "LinkGen.run.cfg", text, nil
+	var out []genCfg
+	for _, s := range []string{"S33", "S34", "S24", "S32", "S23", "S22", "S31", "S21"} {
+		p := 0
+		if s == "S34" {
+			p = pick
+		}
+		out = append(out, mk(s, p))
+	}
+	return out, nil
 }
 
 func Run(r *core.Run) {
 	r.Assume("module bodies observe only order-independent values at top level (own value, values of static imports, the delta of a bump); the relative order of different modules' top-level code is not compared (documented limitation of splitting)")
-	r.Assume("fresh module instances per load sequence are obtained by loading each sequence from its own copy of the output directory in one Node process; with a public path (file:// URL of the output directory) one sequence is loaded in place")
+	r.Assume("fresh module instances per load sequence are obtained by loading each sequence through its own symbolic link to the output directory (node --preserve-symlinks: the ESM registry is keyed by the unresolved URL) in one Node process; with a public path (file:// URL of the output directory) one sequence is loaded in place")
 	r.Assume("trusted: TLC, Node's ESM loader, acorn; the link.done projection (internal/linker/verif_on.go)")
 	installLinkProc()
 	defer api.VerifSetProc("link.done", nil)
@@ -1280,25 +1299,43 @@ func Run(r *core.Run) {
 		})
 		return
 	}
-	cfgName, cfgText, err := genConfig(r)
+	// the properties reject damaged link results (non-vacuity), checked as TLC assumptions
+	sanityDone := make(chan struct{})
+	go func() {
+		defer close(sanityDone)
+		tlcrun.MustHold(r, tlcrun.Options{Module: "LinkSanity", Config: "LinkSanity.cfg", Workers: 1, TimeoutSec: 600})
+	}()
+	defer func() { <-sanityDone }()
+	cfgs, err := genConfigs(r)
 	if err != nil {
-		r.Infra("cannot read the generator config: %v", err)
+		r.Infra("cannot derive the generator configs: %v", err)
 		return
 	}
-	res := tlcrun.MustHold(r, tlcrun.Options{Module: "LinkGen", Config: cfgName, Workers: r.Pick(4, 8), TimeoutSec: r.Pick(600, 3000),
-		Files: map[string]string{cfgName: cfgText},
-		OnCase: func(raw []byte) {
-			var c gcase
-			if err := json.Unmarshal(raw, &c); err == nil && c.Label != "" {
-				cases = append(cases, &c)
-			}
-		}})
-	if res == nil || len(cases) == 0 {
+	var cmu sync.Mutex
+	designBroken := false
+	core.Parallel(len(cfgs), 4, func(i int) {
+		res := tlcrun.MustHold(r, tlcrun.Options{Module: "LinkGen", Config: cfgs[i].name, Workers: 2, TimeoutSec: r.Pick(900, 3000),
+			Files: map[string]string{cfgs[i].name: cfgs[i].text},
+			OnCase: func(raw []byte) {
+				var c gcase
+				if err := json.Unmarshal(raw, &c); err == nil && c.Label != "" {
+					cmu.Lock()
+					cases = append(cases, &c)
+					cmu.Unlock()
+				}
+			}})
+		if res == nil || res.Violated != "" {
+			cmu.Lock()
+			designBroken = true // reported as Infra by MustHold: the design itself is broken
+			cmu.Unlock()
+		}
+	})
+	if designBroken {
+		return
+	}
+	if len(cases) == 0 {
 		r.Infra("no cases exported by LinkGen")
 		return
-	}
-	if res.Violated != "" {
-		return // reported as Infra by MustHold: the design itself is broken
 	}
 	sort.Slice(cases, func(i, j int) bool { return cases[i].Label < cases[j].Label })
 	r.Set("graphs_enumerated", len(cases))
@@ -1348,7 +1385,7 @@ func runCases(r *core.Run, cases []*gcase, configsFor func(i int) []buildConfig)
 		var nres struct {
 			Results []nodeResult `json:"results"`
 		}
-		if err := nodex.Run(r, "run_chunks.js", map[string]interface{}{"jobs": jobs}, &nres, 900*time.Second, r.Scratch, "--expose-internals", "--no-warnings"); err != nil {
+		if err := nodex.Run(r, "run_chunks.js", map[string]interface{}{"jobs": jobs}, &nres, 900*time.Second, r.Scratch, "--expose-internals", "--no-warnings", "--preserve-symlinks"); err != nil {
 			r.Infra("cases %d..%d: node runner failed: %v", lo, hi-1, err)
 			for _, p := range preps {
 				os.RemoveAll(p.root0)
